@@ -1196,7 +1196,18 @@ def _count_options(chk, c):
 
 
 def run(chk):
-    chk.coq_obligations()
+    # source-derived model of the accumulation code: coq/Gen/AccumGen.v is regenerated from the tree under test (setup.sh does the same
+    # under the build lock once its hook for C05 is in place; the file is rewritten only when its content changes) and the theorems
+    # of Props/C05gen.v (generated code = transitions of Model/Accum.v) are obligations of this check
+    import os as _os
+    import subprocess as _sp
+    _tr = _os.path.join(_os.path.dirname(_os.path.dirname(_os.path.dirname(_os.path.abspath(__file__)))), 'translate', 'py2gallina_c05.py')
+    _r = _sp.run(['/venv/bin/python', _tr], capture_output=True, text=True)
+    chk.extra['source_derived_model'] = dict(translator='harness/translate/py2gallina_c05.py', out='coq/Gen/AccumGen.v', rc=_r.returncode,
+                                             stderr=_r.stderr[-500:])
+    if _r.returncode != 0:
+        chk.violation('theorem:Gen/AccumGen.v', 'translator-rejects-source', {'file': 'Gen/AccumGen.v'}, None, _r.stderr[-1500:], failing_input=False)
+    chk.coq_obligations(extra_props=('C05gen',))
     n = chk.n(200, 5000)
     cases = CORPUS + [gen_case(chk.rng, chk.quick) for _ in range(n)]
     impl = run_impl(impl_run, cases, limit=240)
